@@ -165,12 +165,12 @@ Fixpoint spec_outs (directed : bool) (s : spec) (ops : list line) : list line :=
 
 (* After each mutation the model prints the whole observable state: counts, node
    weights, edge_references() (every edge with its index, source, target and
-   weight, row by row), and both slices of every row. *)
+   weight, row by row; an undirected edge only from its smaller endpoint), and both slices of every row. *)
 Fixpoint spec_erefs (directed : bool) (s : spec) (nodes : list nat) (idx : nat) : list Z :=
   match nodes with
   | [] => []
   | a :: rest =>
-      zip3 idx a (spec_neighbors directed s a) (spec_weights directed s a) ++
+      zip3 (negb directed) idx a (spec_neighbors directed s a) (spec_weights directed s a) ++
       spec_erefs directed s rest (idx + length (spec_neighbors directed s a))
   end.
 
